@@ -182,6 +182,26 @@ Theorem C14_notabs_assert_unreachable : forall (st : style),
 Proof. exact notabs_assert_unreachable. Qed.
 Print Assumptions C14_notabs_assert_unreachable.
 
+(** "Every draw" also runs the Display impls of src/format.rs inside format_state
+    (`buf.write_fmt(format_args!("{}", HumanDuration(state.eta()))).unwrap()` ...).  Their partial
+    operations are NOT sites of Builder.v: [render_outcome] takes those calls as total, and that
+    rests on C15: [formatter_call] maps every template key to the case of C15's model
+    [Fmt.fmt_model] its arm evaluates - HumanCount / HumanBytes / DecimalBytes / BinaryBytes of pos,
+    len, `per_sec() as u64`; FormattedDuration and `{:#}` HumanDuration of elapsed(), eta(),
+    duration(); HumanFloatCount of per_sec() with the field width as precision - and for EVERY
+    snapshot and EVERY value of the getters (any N for a u64, any (seconds, nanoseconds) for a
+    Duration - so also eta() = u64::MAX s and duration() = Duration::MAX -, any 64-bit pattern for
+    the f64, any precision) that case is in the domain of C15_total, which is everything: the
+    formatter returns a string.  (This is C15's totality lemma re-exported at the arguments
+    format_state passes; like C15_total it depends on the four standard-library axioms that come
+    with Flocq's binary64.  `{pos}`/`{len}`/`{percent}`/`{percent_precise}` use core's integer and
+    float Display, which are trusted.) *)
+Theorem C14_formatters_total :
+  forall (sn : snapshot) (tm : times) (key : list N) (width : option N) (c : IndModel.Fmt.fcase),
+  formatter_call sn tm key width = Some c -> exists s, IndModel.Fmt.fmt_model c = Ok s.
+Proof. exact formatters_total. Qed.
+Print Assumptions C14_formatters_total.
+
 (** Cross-check with the models of C12 (Padded.v) and C11 (Keys.v), written independently from
     the same Rust functions: PaddedStringDisplay::fmt panics in one model iff it does in the
     other, and the tick string selected here is the one C11's model selects. *)
@@ -238,6 +258,19 @@ Proof.
   split; [apply (build_ok CDefaultSpinner [OSetTab 9223372036854775808]); vm_compute; reflexivity|].
   vm_compute. reflexivity.
 Qed.
+(* the saturated estimates (a bar of length u64::MAX advancing slower than one step per second, a
+   stalled bar): `{eta}` and `{duration}` evaluate HumanDuration at u64::MAX s, in C15's domain *)
+Example C14_ex_saturated_estimates :
+  let tm := mktimes (3, 0) (18446744073709551615, 999999999) (18446744073709551615, 999999999) 0 0 in
+  formatter_call plain_snap tm KeyNames.eta None
+    = Some (IndModel.Fmt.CHDur 18446744073709551615 999999999 true)
+  /\ formatter_call plain_snap tm KeyNames.duration (Some 3)
+    = Some (IndModel.Fmt.CHDur 18446744073709551615 999999999 true)
+  /\ formatter_call plain_snap tm KeyNames.eta_precise None
+    = Some (IndModel.Fmt.CFDur 18446744073709551615 999999999)
+  /\ formatter_call plain_snap tm KeyNames.per_sec (Some 65535) = Some (IndModel.Fmt.CFloat (Some 65535) 0)
+  /\ formatter_call plain_snap tm KeyNames.msg None = None.
+Proof. cbv zeta. repeat split; vm_compute; reflexivity. Qed.
 (* [mt_ok] is needed: a (fictitious) string wider in columns than long in bytes underflows *)
 Example C14_ex_mt_ok_needed : padded_sites (mkmt 1 3) 0 ALeft true = Panic SITE_PAD_LEFT.
 Proof. reflexivity. Qed.
